@@ -761,6 +761,34 @@ fn zero_length_dense() -> Option<String> {
     None
 }
 
+/// C07 (BDF): the interpolant of order q is the polynomial through the q+1 back values its difference table encodes:
+/// fed the backward differences of a polynomial of degree q on a uniform grid it must reproduce that polynomial everywhere in the step
+fn bdf_interpolant_history() -> Option<String> {
+    use ivp::methods::BDF;
+    for q in 1..=5usize {
+        for &(xn, h) in &[(1.0f64, 0.25f64), (-2.0, 0.5), (3.0, -0.125)] {
+            let poly = |t: f64| -> f64 { let u = t - xn; (0..=q).fold(0.0, |acc, e| acc + (1.0 + e as f64) * u.powi(e as i32)) };
+            // back values y(xn - j h), j = 0..q, and their backward differences
+            let mut tab: Vec<f64> = (0..=q).map(|j| poly(xn - j as f64 * h)).collect();
+            let mut d = vec![tab[0]];
+            for _ in 1..=q { tab = (0..tab.len() - 1).map(|j| tab[j] - tab[j + 1]).collect(); d.push(tab[0]); }
+            let mut cont = vec![0.0; 7];
+            for (k, v) in d.iter().enumerate() { cont[k] = *v; }
+            cont[6] = q as f64;
+            for theta in [0.0, 0.125, 0.25, 0.5, 0.75, 0.875, 1.0] {
+                let xi = (xn - h) + theta * h;
+                let mut yi = [0.0];
+                BDF::interpolate(xi, &mut yi, &cont, xn - h, h);
+                let want = poly(xi);
+                if !((yi[0] - want).abs() <= 1e-9 * (1.0 + want.abs())) {
+                    return Some(format!("BDF::interpolate with the order-{} difference table of a degree-{} polynomial on the grid x = {} - j*{}: at theta = {} it returns {:e}, the polynomial is {:e}", q, q, xn, h, theta, yi[0], want));
+                }
+            }
+        }
+    }
+    None
+}
+
 fn main() {
     let which = std::env::args().nth(1).unwrap_or_default();
     let r = match which.as_str() {
@@ -771,6 +799,7 @@ fn main() {
         "default_mass" => default_mass(),
         "matrix_dense_model" => matrix_dense_model(),
         "lu_small" => lu_small(),
+        "bdf_interpolant_history" => bdf_interpolant_history(),
         "zero_length_dense" => zero_length_dense(),
         "events_multi_in_step" => events_multi_in_step(),
         "banded_jacobian_storage" => banded_jacobian_storage(),
